@@ -1,6 +1,7 @@
 """C10 - cleaning is a deterministic, order-preserving function of content and configuration."""
 import json
 import os
+import re
 import subprocess
 import sys
 
@@ -45,10 +46,17 @@ COMPETE = ["srvq", "zzcorp", "lab.zz", "nodeq", "2.3", "230.230", "10.2", "aa:b"
            "e.com", "test", "q7", "S3c", "com", "0.1"]
 
 
+ID_RE = re.compile(r"~~\d+(?:~\d+)*~~")
+
+
 def directed(tier):
     cfg = {"fqdn": "node1.example.org", "obfuscate": True, "obfuscate_hostname": True, "obfuscate_mac": True,
            "keywords": ["node"], "patterns": None}
-    return [{"cfg": cfg, "lines": ["~~0~~ node1.example.org is node1 at 1.2.3.4", "~~1~~ password: node1"], "no_obfuscate": [], "no_redact": False}]
+    # a very large spec (big logs, package verification listings): stored line by line like any other
+    plain = {"fqdn": "node1.example.org", "obfuscate": False, "obfuscate_hostname": False, "obfuscate_mac": False, "keywords": ["zzsecret"], "patterns": None}
+    big = [{"cfg": plain, "lines": ["~~7~%d~~ rec %06d ok" % (i, i) for i in range(n)], "via_file": True, "no_obfuscate": [], "no_redact": False}
+           for n in ((65537,) if tier == "quick" else (65537, 140001))]
+    return [{"cfg": cfg, "lines": ["~~0~~ node1.example.org is node1 at 1.2.3.4", "~~1~~ password: node1"], "no_obfuscate": [], "no_redact": False}] + big
 
 
 def gen_case(rng, tier, idx):
@@ -374,7 +382,7 @@ def run_shard(ctx):
             for o in out:
                 if o == "":
                     continue
-                found = [t for t in pos if t in o]
+                found = [t for t in dict.fromkeys(ID_RE.findall(o)) if t in pos] if len(pos) > 200 else [t for t in pos if t in o]
                 if len(found) != 1 or not o.startswith(found[0]):
                     ctx.violation("output-line-without-exactly-one-input-id", {"line": o[:200], "ids": found})
                     continue
